@@ -68,10 +68,11 @@ def main():
     meta["confirmed"] = ok
     dst = os.path.join("/verif/seeded", sid)
     os.makedirs(dst, exist_ok=True)
-    shutil.copy(patch, os.path.join(dst, "patch.diff"))
-    shutil.copy(demo, os.path.join(dst, "demo_test.go"))
-    if os.path.exists(os.path.join(src, "NOTES.md")):
-        shutil.copy(os.path.join(src, "NOTES.md"), os.path.join(dst, "NOTES.md"))
+    if os.path.realpath(src) != os.path.realpath(dst):
+        shutil.copy(patch, os.path.join(dst, "patch.diff"))
+        shutil.copy(demo, os.path.join(dst, "demo_test.go"))
+        if os.path.exists(os.path.join(src, "NOTES.md")):
+            shutil.copy(os.path.join(src, "NOTES.md"), os.path.join(dst, "NOTES.md"))
     old = {}
     mp = os.path.join(dst, "meta.json")
     if os.path.exists(mp):
